@@ -200,7 +200,7 @@ func gated(t *testing.T, rng *emit.Rand, batch int) (string, map[string]any, int
 		final := storeh.ProbeOf(e.s, e.chain, e.reg, U)
 		_ = e.s.Stop(ctx)
 		nobs = len(obs)
-		term = fmt.Sprintf("Case17 0 %d %s %s %s %s [] %s", batch, e.chainTerms(), heights(init), emit.List(qs), emit.List(obs), final)
+		term = fmt.Sprintf("Case17 0 %d %s %s %s %s [] [] %s", batch, e.chainTerms(), heights(init), emit.List(qs), emit.List(obs), final)
 		descr["mode"], descr["init"], descr["queue"], descr["batch"] = "gated", init, queue, batch
 	})
 	return term, descr, nobs
@@ -221,30 +221,54 @@ func free(t *testing.T, rng *emit.Rand, batch int, withDeleter bool) (string, ma
 		_ = e.s.Append(ctx, e.hdrs(init)...)
 		_ = e.s.Sync(ctx)
 		synctest.Wait()
-		all := randBatches(rng, uint64(len(init)), 6+rng.Intn(6))
-		nw := 2 + rng.Intn(3)
+		// a failed height lookup takes a little virtual time, so the flush goroutine is still busy
+		// when a writer continues after Sync returned
+		e.ds.OnGet = func(key string, found bool) {
+			if !found {
+				time.Sleep(time.Microsecond)
+			}
+		}
+		all := randBatches(rng, uint64(len(init)), 8+rng.Intn(6))
+		nw := 2 + rng.Intn(2)
 		per := make([][][]uint64, nw)
 		for i, b := range all {
 			per[i%nw] = append(per[i%nw], b)
 		}
 		var wg sync.WaitGroup
 		done := make(chan struct{})
+		synced := make([][]string, nw)
 		for wi := 0; wi < nw; wi++ {
 			wg.Add(1)
 			delays := make([]time.Duration, len(per[wi]))
 			for i := range delays {
 				delays[i] = time.Duration(rng.Intn(5)) * time.Microsecond
 			}
-			go func(bs [][]uint64, delays []time.Duration) {
+			go func(wi int, bs [][]uint64, delays []time.Duration) {
 				defer wg.Done()
+				var mine []uint64
 				for i, b := range bs {
-					time.Sleep(delays[i])
+					if i%3 == 0 {
+						time.Sleep(delays[i]) // bursts of up to three Appends back to back, then Sync
+					}
 					_ = e.s.Append(ctx, e.hdrs(b)...)
-					if i%2 == 1 {
-						_ = e.s.Sync(ctx)
+					mine = append(mine, b...)
+					if i%3 == 2 || i == len(bs)-1 {
+						if err := e.s.Sync(ctx); err != nil {
+							continue
+						}
+						// every header whose Append has been followed by Sync is readable (unless the deleter took it)
+						for _, n := range mine {
+							if withDeleter && n < 10 {
+								continue
+							}
+							// non-waiting reads only: GetByHeight would wait for the header to arrive
+							ok, _ := e.s.Has(ctx, e.chain[n-1].Hash())
+							h, err := e.s.Get(ctx, e.chain[n-1].Hash())
+							synced[wi] = append(synced[wi], emit.B(err == nil && h != nil && h.Height() == n && ok))
+						}
 					}
 				}
-			}(per[wi], delays)
+			}(wi, per[wi], delays)
 		}
 		if withDeleter {
 			wg.Add(1)
@@ -294,8 +318,114 @@ func free(t *testing.T, rng *emit.Rand, batch int, withDeleter bool) (string, ma
 		if withDeleter {
 			mode = 2
 		}
-		term = fmt.Sprintf("Case17 %d %d %s %s %s [] %s %s", mode, batch, e.chainTerms(), heights(init), emit.List(qs), emit.List(fs), final)
+		var sy []string
+		for _, l := range synced {
+			sy = append(sy, l...)
+		}
+		term = fmt.Sprintf("Case17 %d %d %s %s %s [] %s %s %s", mode, batch, e.chainTerms(), heights(init), emit.List(qs), emit.List(fs), emit.List(sy), final)
 		descr["mode"], descr["init"], descr["queue"], descr["batch"], descr["writers"], descr["readers"] = mode, init, all, batch, nw, nr
+	})
+	return term, descr, nobs
+}
+
+// gatedDelete: a tail-side DeleteRange is parked at each of its datastore operations; at one of the
+// parks a writer's Append is flushed completely; a reader observes at every park.
+func gatedDelete(t *testing.T, rng *emit.Rand, batch int) (string, map[string]any, int) {
+	var term string
+	var nobs int
+	descr := map[string]any{}
+	synctest.Test(t, func(t *testing.T) {
+		e := setup(t, batch)
+		ctx := context.Background()
+		k := uint64(5 + rng.Intn(5))
+		var init []uint64
+		for n := uint64(1); n <= k; n++ {
+			init = append(init, n)
+		}
+		_ = e.s.Append(ctx, e.hdrs(init)...)
+		_ = e.s.Sync(ctx)
+		synctest.Wait()
+		to := uint64(2 + rng.Intn(int(k)-1))
+		if rng.Chance(35) {
+			to = k // delete everything below the head
+		}
+		app := []uint64{k + 1, k + 2}
+		var mu sync.Mutex
+		armed, parked := false, false
+		gate := make(chan struct{})
+		hook := func() {
+			mu.Lock()
+			if !armed {
+				mu.Unlock()
+				return
+			}
+			parked = true
+			mu.Unlock()
+			<-gate
+		}
+		e.ds.OnWrite = hook
+		e.ds.OnGet = func(key string, found bool) {
+			if !found && isHeightKey(key) {
+				hook()
+			}
+		}
+		expected := int(2*(to-1)) + 3
+		at := rng.Intn(expected + 1)
+		if rng.Chance(60) {
+			at = expected - rng.Intn(4) // the pointer-update phase at the end
+		}
+		delDone := make(chan error, 1)
+		mu.Lock()
+		armed = true
+		mu.Unlock()
+		go func() { delDone <- e.s.DeleteRange(ctx, 1, to) }()
+		var obs []string
+		appended := false
+		for i := 0; ; i++ {
+			synctest.Wait()
+			mu.Lock()
+			p := parked
+			mu.Unlock()
+			if !p {
+				break
+			}
+			obs = append(obs, e.observe())
+			if i == at && !appended {
+				appended = true
+				mu.Lock()
+				armed = false
+				mu.Unlock()
+				_ = e.s.Append(ctx, e.hdrs(app)...)
+				_ = e.s.Sync(ctx)
+				synctest.Wait()
+				obs = append(obs, e.observe())
+				mu.Lock()
+				armed = true
+				mu.Unlock()
+			}
+			mu.Lock()
+			parked = false
+			mu.Unlock()
+			gate <- struct{}{}
+		}
+		derr := <-delDone
+		mu.Lock()
+		armed = false
+		mu.Unlock()
+		e.ds.OnWrite, e.ds.OnGet = nil, nil
+		obs = append(obs, e.observe())
+		if !appended {
+			_ = e.s.Append(ctx, e.hdrs(app)...)
+		}
+		_ = e.s.Sync(ctx)
+		synctest.Wait()
+		obs = append(obs, e.observe())
+		final := storeh.ProbeOf(e.s, e.chain, e.reg, U)
+		_ = e.s.Stop(ctx)
+		nobs = len(obs)
+		term = fmt.Sprintf("Case17 3 %d %s %s %s [] %s [] %s", batch, e.chainTerms(), heights(init), emit.List([]string{heights(app)}),
+			emit.List([]string{emit.List(obs)}), final)
+		descr["mode"], descr["init"], descr["delete_to"], descr["append_at_park"], descr["batch"], descr["delete_err"] = "gated-delete", len(init), to, at, batch, fmt.Sprint(derr)
 	})
 	return term, descr, nobs
 }
@@ -307,7 +437,10 @@ func TestC17(t *testing.T) {
 	w.Rule = "mode 0: gate-controlled schedules — each queued batch's flush is parked at its datastore calls (advanceHead lookup, recedeTail lookup, " +
 		"batch commit) and a reader observes Head/Height/GetByHeight(head)/Get(head hash) at every park, compared with the model's micro-states; " +
 		"mode 1: 2-4 free writer goroutines + 1-2 polling readers in virtual time, final state compared with the sequential model/spec; " +
-		"mode 2: mode 1 plus a tail-side DeleteRange racing the appends (oracle only: monotone observations, gap-free final chain). " +
+		"mode 2: mode 1 plus a tail-side DeleteRange racing the appends (oracle only: monotone observations, gap-free final chain); " +
+		"mode 3: a tail-side DeleteRange(1,to) parked at each of its datastore operations (deletes, pointer writes, lookup misses) with a reader observing at " +
+		"every park and one Append flushed completely at a chosen park (oracle only: Head/Height never decrease, final chain gap-free, deleted heights gone). " +
+		"Writers check after every Sync that all they appended is readable. " +
 		"distinct by (mode, batch, init, queue); non-trivial when a reader observed at least 3 states"
 	n := 120
 	if emit.Thorough() {
@@ -319,12 +452,14 @@ func TestC17(t *testing.T) {
 		var d map[string]any
 		var nobs int
 		switch {
-		case i%5 < 3:
+		case i%6 < 2:
 			term, d, nobs = gated(t, rng, batch)
-		case i%5 == 3:
+		case i%6 == 2:
 			term, d, nobs = free(t, rng, batch, false)
-		default:
+		case i%6 == 3:
 			term, d, nobs = free(t, rng, batch, true)
+		default:
+			term, d, nobs = gatedDelete(t, rng, batch)
 		}
 		w.Add(term, d, fmt.Sprint(d), nobs >= 3)
 		w.Count("mode", fmt.Sprint(d["mode"]))
